@@ -46,9 +46,18 @@ def gen_case(rng, params):
     data = g.gen_stream(rng, lit, n_cmds)
     if ascii_only:
         data = bytes(c for c in data if c < 128)
-    pieces = g.cut(rng, data)
+    if chunk == params["readChunkSize"] and rng.random() < 0.05:
+        marks = [m.end() for m in __import__("re").finditer(__import__("re").escape(lit), data)]
+        data, pieces = g.page_cut(rng, data, chunk, marks)
+    else:
+        pieces = g.cut(rng, data)
     ticks = g.schedule(rng, pieces, "zero")
     ops = []
+    if rng.random() < 0.15 and len(data) > 2:
+        # a death string that is completed while a stream is attached: the piece that completes it has been read and
+        # belongs into the stream like every other piece (the caller may handle the exception and go on reading)
+        i = rng.randrange(len(data) - 1)
+        ops.append(f"ads:L{hx(data[i:i + rng.randint(1, 3)])}:0")
     if regex:
         import regen
         if rng.random() < 0.6:
